@@ -413,7 +413,8 @@ MANIFEST = {
             "are set exactly when the table stops short of the requested end. findCriticalTemperature with "
             "an arbitrary free-energy difference: the returned temperature is a zero inside the coexistence "
             "range, bracketed by a dT-wide sign change found by the stepping loop (unrolled 3)."
-            " Two phases built by the real constructor own their range limits: tracing one leaves the other (and objects constructed later) at the constructor values.",
+            " Two phases built by the real constructor own their range limits: tracing one leaves the other (and objects constructed later) at the constructor values."
+            " Every tabulated free energy is the potential at the tabulated point and temperature.",
     "note": "Whether the tabulated point really is the continuous minimum (RK45/BFGS accuracy, branch "
             "hopping) is numerical and outside; only the decisions and the bookkeeping are decided.",
 }
